@@ -109,24 +109,25 @@ CLAIMED = {
 
 # dimensions added after the seeded-change rounds 3 and 4 (appended to the level text)
 ADDED = {
- "C16": " A second file edited in the same state (insertion inside its last full slice).",
- "C12": " Wide codes (32, 64, 256 data shards) over 16-100 byte shards with 300 (3000) free-running repetitions per goroutine count.",
- "C06": " All optional PAR2 packet types in 15 shapes; sets with non-recovery-set files.",
- "C01": " Big sets also vary the index base name, use literal odd protected names (backslash, glob and shell characters, spaces), protected siblings and bystanders with temporary-file / backup suffixes, duplicated volumes and a copy of the index. Create refusing a legitimate set is a judged event (create_accepts_legitimate_set); files of exactly 1 and 2 MiB; case twins deleted in both orders; set-lookalike and temp-suffix protected names. Dot-named components below the top level; files that lost only some of the zero bytes their last slice ends in.",
- "C02": " Bystanders with names derived from the names Create / Repair read and write (.tmp, ~, .bak) are present around every Create and Repair of the big sets.",
+ "C18": " Index file cut at a packet boundary (states short-index..).",
+ "C16": " A second file edited in the same state (insertion inside its last full slice). Forged CRC-32 values: the first survivor behind the edit has CRC-32 0; two slices share one CRC-32.",
+ "C12": " Wide codes (32, 64, 256 data shards) over 16-100 byte shards with 300 (3000) free-running repetitions per goroutine count. Lengths of a few whole 64 KiB blocks plus a remainder; goroutine counts 4, 6, 7.",
+ "C06": " All optional PAR2 packet types in 15 shapes; sets with non-recovery-set files. A second creator packet with different text in one file.",
+ "C01": " Big sets also vary the index base name, use literal odd protected names (backslash, glob and shell characters, spaces), protected siblings and bystanders with temporary-file / backup suffixes, duplicated volumes and a copy of the index. Create refusing a legitimate set is a judged event (create_accepts_legitimate_set); files of exactly 1 and 2 MiB; case twins deleted in both orders; set-lookalike and temp-suffix protected names. Dot-named components below the top level; files that lost only some of the zero bytes their last slice ends in. Forged CRC-32 values (two different slices with one CRC-32; a slice with CRC-32 0).",
+ "C02": " Bystanders with names derived from the names Create / Repair read and write (.tmp, ~, .bak) are present around every Create and Repair of the big sets. Stale recovery volumes of the same set id with every file lost (several files rewritten in one Repair).",
  "C03": " Big sets include volumes copied under another name (distinct-block count), literal odd names and several index base names. Files of exactly 1 and 2 MiB with a slice size that does not divide them; 256 / 512 identical slices.",
- "C04": " Big sets vary the index base name and include protected siblings with temporary-file / backup suffixes. Create refusing a legitimate set (e.g. 200 files + 56 volumes) is a judged event.",
- "C05": " A reduced list of sets with large coding matrices is recorded again in processes started with other GOMAXPROCS values. Inputs named like files of the set being written; constant, periodic and all-zero contents; hundreds of recovery blocks.",
+ "C04": " Big sets vary the index base name and include protected siblings with temporary-file / backup suffixes. Create refusing a legitimate set (e.g. 200 files + 56 volumes) is a judged event. PAR1 files of 1.2 and 2 MiB with a gap in the volume numbers.",
+ "C05": " A reduced list of sets with large coding matrices is recorded again in processes started with other GOMAXPROCS values. Inputs named like files of the set being written; constant, periodic and all-zero contents; hundreds of recovery blocks. A 6 MB set with slice size 40000.",
  "C07": " Erasure patterns whose elimination needs overlapping row exchanges are found by simulating the elimination with the independent field; 2 MiB shards; the seeded codes are run again under GOMAXPROCS=3. Every fifth round with a spare parity shard puts garbage into that spare (only 'nil error means originals' and 'supplied shards untouched' are judged there); a supplied shard removed from the caller's slice counts as altered; every small pattern is visited again after other codes were used (process-wide caches).",
- "C08": " A reduced list (table ends, chunk boundaries, all inverses) is recorded again in processes started with other GOMAXPROCS values.",
+ "C08": " A reduced list (table ends, chunk boundaries, all inverses) is recorded again in processes started with other GOMAXPROCS values. Every base with 33 large exponents (nominated Pow sweep).",
  "C09": " Buffers of 2 MiB and more (>= 65536 SIMD blocks); a reduced list (top constants, chunk boundaries) is recorded again under other GOMAXPROCS values. Touching buffers (consecutive halves of one allocation, both orders) and multiplication in place (in and out the same slice).",
  "C10": " Reference-written layouts include entries named like another entry plus a temporary-file / backup suffix. Long, mostly non-saved file lists (255, 256, 257, 300 entries); seven comment shapes; parity columns around every 64 KiB multiple.",
- "C11": " Dimensions 257 and 300 in the quick tier; small matrices whose elimination factors are the table's top constants are recorded again under other GOMAXPROCS values.",
- "C13": " The goroutine count varies with the case; data state 'all protected files gone' within capacity. Data state 'zerotail': a data file lost some of the zero bytes its last slice ends in.",
+ "C11": " Dimensions 257 and 300 in the quick tier; small matrices whose elimination factors are the table's top constants are recorded again under other GOMAXPROCS values. RowReduceForInverse with the right-hand side (N_L | I) the coder passes.",
+ "C13": " The goroutine count varies with the case; data state 'all protected files gone' within capacity. Data state 'zerotail': a data file lost some of the zero bytes its last slice ends in. Length fields that swallow the next packet; sixteen bytes of packet magic plus an extreme length inside packet bodies; a returned result must count every intact recovery block.",
  "C14": " Convergence includes the within-capacity clauses (once the recovery files present suffice, Repair succeeds). Zero-tail scenario (slices all in place, file too short).",
  "C15": " Create refusal cases include siblings whose names merely start with the archive directory's name; names include the compound component x/.. Every refusal case again over the complete output of an earlier, larger Create under the same index name.",
- "C17": " Dimensions: five input orders, goroutine counts incl. 3, default slice size, and 'prior' (the directory already holds longer files under the names Create writes). An input that is a symbolic link to another input; prior 'staleother' (output of an earlier Create over inputs differing only beyond the first 16 KiB). Goroutine count 2 in the quick tier.",
- "C19": " PAR1 sets of 255, 256, 257 and 300 entries. Two related fields extreme at once: full cross product for seven field pairs (enumerated by the model); optional packets and non-recovery-set files as valid structural mutations. Count and exponent mutants again in a PAR2 world with slice size 4096.",
+ "C17": " Dimensions: five input orders, goroutine counts incl. 3, default slice size, and 'prior' (the directory already holds longer files under the names Create writes). An input that is a symbolic link to another input; prior 'staleother' (output of an earlier Create over inputs differing only beyond the first 16 KiB). Goroutine count 2 in the quick tier. The first input listed a second time (set 5), in every spelling.",
+ "C19": " PAR1 sets of 255, 256, 257 and 300 entries. Two related fields extreme at once: full cross product for seven field pairs (enumerated by the model); optional packets and non-recovery-set files as valid structural mutations. Count and exponent mutants again in a PAR2 world with slice size 4096. A volume without main packet combined with every recovery-packet mutation.",
  "C20": " Two index base names; archive state 'appended'; a share of the cases runs with GOMAXPROCS=1 and 3. Create with a single operand in four spellings (usage error 3).",
 }
 
